@@ -162,6 +162,8 @@ def main():
             res = run_unit(u, REPO, rlimit=rlimit * 4, seed=seed + 7)
         return u, res, cens, vres
 
+    kani_pool = cf.ThreadPoolExecutor(max_workers=1)
+    kani_future = kani_pool.submit(kanirun.run_for, pid, tier, REPO) if not a.no_kani else None
     with cf.ThreadPoolExecutor(max_workers=max(1, min(6, len(units)))) as pool:
         outcomes = list(pool.map(work, units))
     for (u, res, cens, vres) in outcomes:
@@ -206,9 +208,7 @@ def main():
         if vres[2]:
             undecided.append('%s: vacuity guard: `ensures false` is provable for %s (contradictory precondition or shim)' % (u, ', '.join(vres[2][:5])))
     # ---- Kani harnesses registered for this property
-    kres = []
-    if not a.no_kani:
-        kres = kanirun.run_for(pid, tier, REPO)
+    kres = kani_future.result() if kani_future is not None else []
     for kr in kres:
         cmds.append(kr['cmd'])
     # ---- verdicts
@@ -272,7 +272,7 @@ def main():
                    'verus': (r.verus_json or {}).get('verification-results')} for r in results],
         'kani': [{k: v for k, v in kr.items() if k not in ('replay_text',)} for kr in kres],
         'bounded': [{'harness': kr['name'], 'bound': kr.get('bound'), 'result': kr['status'], 'seconds': kr.get('seconds')}
-                    for kr in kres if kr['kind'] == 'bounded'],
+                    for kr in kres if kr['kind'] != 'complete'],
         'known_findings_reproduced': [h.get('obligation') for (h, _) in known_hits],
         'undecided': undecided,
         'exhaustive': False,
